@@ -63,7 +63,8 @@ def _to_meshio_cell_type_and_ordering(cell_type: CellType, connectivity: ndarray
     if cell_type.name in meshio_to_vtk_type:
         return str(cell_type), reordered
 
-    # meshio does not support pixels/voxels -> use quads/hexes
+    # meshio does not support pixels/voxels -> use quads/hexes (reorder a copy, not the connectivity of the given mesh)
+    reordered = connectivity.copy()
     if cell_type == CellTypes.pixel:
         cell_type = CellTypes.quad
         for i in range(len(connectivity)):
